@@ -362,6 +362,15 @@ func run(r *mon.Run) {
 			{"case-colliding-among-many", http.Header{"Content-Type": {"text/html"}, "X-Dup": {"alpha"}, "x-dup": {"beta"}, "Age": {"1"}, "Etag": {"\"e\""}, "Link": {"l"}, "Server": {"s"}, "Vary": {"v"}, "X-A": {"a"}, "X-Z": {"z"}}},
 		}
 		odds = append(odds, odds[3], odds[3], odds[3], odds[3], odds[3]) // (several draws of the map order)
+		// resources that arrive with an integrity header of their own: the payload encoder refuses the one it is about to
+		// add itself (Digest for mi-sha256-03, MI-Draft2 for draft 02); whatever it agrees to process must verify
+		nDigestSets := len(odds)
+		odds = append(odds,
+			oddSet{"own-mi-digest", http.Header{"Content-Type": {"text/html"}, "Digest": {"mi-sha256-03=dcRDgR2GM35DluAV13PzgnG6+pvQwPywfFvAu1UeFrs="}}},
+			oddSet{"own-mi-draft2", http.Header{"Content-Type": {"text/html"}, "MI-Draft2": {"mi-sha256-draft2=dcRDgR2GM35DluAV13PzgnG6-pvQwPywfFvAu1UeFrs"}}},
+			oddSet{"instance-digest", http.Header{"Content-Type": {"text/html"}, "Digest": {"sha-256=X48E9qOokqqrvdts8nOJRJN3OWDUoyWxBf7kbu9DBPE="}}},
+			oddSet{"both-integrity-headers", http.Header{"Content-Type": {"text/html"}, "Digest": {"sha-256=X48E9qOokqqrvdts8nOJRJN3OWDUoyWxBf7kbu9DBPE="}, "MI-Draft2": {"mi-sha256-draft2=AAAA"}}},
+		)
 		for vi, ver := range gen.SXGVersions {
 			for oi, o := range odds {
 				for _, where := range []string{"response", "request"} {
@@ -410,6 +419,9 @@ func run(r *mon.Run) {
 							v2, _ := verify(r, fmt.Sprintf("odd-verify-after/%s/%d", ver, oi), back, tmid, ids[0])
 							if v1.ok != v2.ok {
 								problem = fmt.Sprintf("Verify says %v in memory and %v after Write and ReadExchange", v1.ok, v2.ok)
+							}
+							if oi >= nDigestSets && where == "response" && !v2.ok {
+								problem = fmt.Sprintf("the exchange does not verify inside [date, expires] (in memory: %v, after Write and ReadExchange: %v)", v1.ok, v2.ok)
 							}
 							for k, vs := range want {
 								a, b := append([]string{}, vs...), append([]string{}, have[k]...)
